@@ -66,6 +66,7 @@ QUICK = [
   LTS(4, 1, 0),                               # 16 + 3
   LTS(2, 3, 0),                               # 12 + 2, three labels
   LTS(3, 1, 0, CT=1),                         # number of states determined by the edges (1..3)
+  LTS(2, 2, 0, REUSED=None), LTS(3, 1, 0, REUSED=None),      # the object held another system (more labels and states) before and was cleared (fifth round)
   LTS(3, 2, 0, EMASK=M32['src']), LTS(3, 2, 0, EMASK=M32['dst']), LTS(3, 2, 0, EMASK=M32['noloop']), LTS(3, 2, 0, EMASK=M32['a+loop']),
   LTS(3, 3, 0, EMASK=M33_ROT, OUTSYM=0), LTS(5, 1, 0, EMASK=M51_BAND),
   LTS(4, 2, 0, EMASK=M42['ring'], OUTSYM=0), LTS(4, 2, 0, EMASK=M42['updown'], OUTSYM=0), LTS(4, 2, 0, EMASK=M42['fan'], OUTSYM=0),
@@ -88,7 +89,7 @@ CHECKS = {
  'C16': {
   'level': 'model_checking',
   'explanation': 'ExplicitLTS::addTransition/init/computeSimulation executed symbolically on every labelled transition system whose edges are drawn from the edge universe of the configuration (presence bit per edge; with MULT two bits per edge = parallel edges and varied adjacency-list order), with a symbolic output size, and (MODE 1) a symbolic partition of the states into blocks (all set partitions, both block orders) with a symbolic reflexive-transitive relation on the blocks; the returned BinaryRelation is read with get(q,r) for all q,r below the output size and compared with a naive greatest-fixpoint oracle of the simulation definition started from the induced state relation (full relation without partition); size() must equal the output size.',
-  'bounds': {'quick': 'LTSs over <=5 states and <=3 labels. Without partition: 2 states x 1..3 labels (1..2 labels with parallel edges), 3 states x 1 label (parallel edges; also with the state count following from the edges), 4 states x 1 label, four 12-edge sub-universes of 3 states x 2 labels, one 12-edge sub-universe of 3 states x 3 labels, three 11..12-edge sub-universes of 4 states x 2 labels, a 13-edge band of 5 states x 1 label. With initial partition/preorder (all set partitions, both block orders, all preorders on the blocks): 2 states x 1..2 labels, 3 states x 1 label (complete), one 12-edge sub-universe of 3 states x 2 labels. Output size symbolic in 0..|Q| unless the edge set already uses 12 bits (10..21 free bits per query); plus concrete filler states around a symbolic core: 30..33 self-loop fillers (two counter rows), 67 chain-shaped fillers (partition grows past 64 blocks), 16 fillers with self loops on two labels numbered before a 9-edge core of 5 states (a run-time split with counters in two rows), 18 fillers with requested output size 16 (a full row of the result matrix)',
+  'bounds': {'quick': 'LTSs over <=5 states and <=3 labels. Without partition: 2 states x 1..3 labels (1..2 labels with parallel edges), 3 states x 1 label (parallel edges; also with the state count following from the edges; 2 states x 2 labels and 3 states x 1 label also on an object that held a larger system before and was cleared), 4 states x 1 label, four 12-edge sub-universes of 3 states x 2 labels, one 12-edge sub-universe of 3 states x 3 labels, three 11..12-edge sub-universes of 4 states x 2 labels, a 13-edge band of 5 states x 1 label. With initial partition/preorder (all set partitions, both block orders, all preorders on the blocks): 2 states x 1..2 labels, 3 states x 1 label (complete), one 12-edge sub-universe of 3 states x 2 labels. Output size symbolic in 0..|Q| unless the edge set already uses 12 bits (10..21 free bits per query); plus concrete filler states around a symbolic core: 30..33 self-loop fillers (two counter rows), 67 chain-shaped fillers (partition grows past 64 blocks), 16 fillers with self loops on two labels numbered before a 9-edge core of 5 states (a run-time split with counters in two rows), 18 fillers with requested output size 16 (a full row of the result matrix)',
              'thorough': 'as quick plus the complete 3 states x 2 labels universe (18 edge bits), a fifth 12-edge sub-universe of it, 2 states x 2 labels with parallel edges and partition/preorder, an 18-edge sub-universe of 5 states x 1 label, two further 3 states x 2 labels sub-universes with partition/preorder; 131 chain fillers (128 blocks), 22 / 33 two-label fillers, output size 32'},
   'outside': 'systems with more than 5 symbolic states (the filler configurations add 30..33 concrete, disconnected self-loop states only); more than 5 states or 3 labels; systems with >= 3 states and >= 2 labels, and with 5 states, only inside the listed sub-universes; edge multiplicity > 2; output sizes larger than the number of states; partitions with empty blocks and block relations that are not reflexive/transitive (excluded by the documented assertions of the engine); row sizes of the shared counters other than 31 (needs > 4000 states)',
   'assumptions': ['the LTS has at least one state and the output size does not exceed the number of states (preconditions asserted by SimulationEngine)'],
